@@ -181,16 +181,40 @@ fn filters_case(rng: &mut StdRng, b: &Value, rep: &mut Report) {
     let (rname, rbyte) = regions[rng.gen_range(0 .. regions.len())];
     let seed_ip = format!("{}.{}.{}.{}", rng.gen::<u8>(), rng.gen::<u8>(), rng.gen::<u8>(), rng.gen::<u8>());
     let seed_port: u16 = rng.gen();
-    let script = ScriptJ::udp(vec![vec![terminator_page(&[], true)]]);
+    // The service object may have been used before: a complete query with OTHER filters that succeeded, failed on its second
+    // page, met a malformed first page or timed out. The request under check is the one sent after that, with ITS filters.
+    let prelude = ["none", "none", "succeeds", "fails_page2", "malformed_first", "times_out"][rng.gen_range(0 .. 6)];
+    let one_addr = |a: u8| ([10u8, 1, 2, a], 27015u16);
+    let prelude_batches: Vec<Vec<Vec<u8>>> = match prelude {
+        "succeeds" => vec![vec![terminator_page(&[one_addr(1)], true)]],
+        "fails_page2" => vec![vec![terminator_page(&[one_addr(1), one_addr(2)], false)], vec![vec![0xff, 0xff, 0xff]]],
+        "malformed_first" => vec![vec![vec![1, 2, 3]]],
+        "times_out" => vec![vec![]],
+        _ => vec![],
+    };
+    let prelude_sends = prelude_batches.len();
+    let mut batches = prelude_batches;
+    batches.push(vec![terminator_page(&[], true)]);
+    let script = ScriptJ::udp(batches);
     let region = region_of(rname);
     let opt = if b["inserts"].as_array().unwrap().is_empty() && rng.gen_bool(0.5) { None } else { Some(f) };
     let sip = seed_ip.clone();
     let rec = run_call(&script, DEFAULT_MAX_OPS, move || {
         let mut ms = ValveMasterServer::new(&addr(27011))?;
+        if prelude != "none" {
+            let other = SearchFilters::new()
+                .insert(Filter::RunsMap("zz_prelude_map".to_string()))
+                .insert_nand(Filter::IsSecured(true))
+                .insert_nor(Filter::MatchName("zz_prelude_name".to_string()));
+            let _ = ms.query(Region::Europe, Some(other));
+        }
         ms.query_specific(region, &opt, &sip, seed_port).map(|v| v.len())
     });
-    let sent = sends(&rec);
-    let case = json!({"behaviour": b, "region": rname, "seed": format!("{seed_ip}:{seed_port}"),
+    let sent: Vec<(usize, Vec<u8>)> = {
+        let all = sends(&rec);
+        if all.len() == prelude_sends + 1 { all[prelude_sends ..].to_vec() } else if prelude == "none" { all } else { Vec::new() }
+    };
+    let case = json!({"behaviour": b, "region": rname, "seed": format!("{seed_ip}:{seed_port}"), "service_object_used_before": prelude,
                       "texts": texts.iter().map(|((k, v), t)| json!([k, v, t])).collect::<Vec<_>>()});
     let mut fail = |sig: String, detail: Value| {
         rep.violation("C16", &sig, json!({"kind":"master-filters","case":case,"detail":detail,"sent":sent.iter().map(|s| hex(&s.1)).collect::<Vec<_>>(),
